@@ -134,6 +134,9 @@ def data_session(col, binpath, vmon, rng, tag, scratch):
                 col.add("C17", f"C17|terminated_before_quit|{sess.panic_location()}", "radar died during a C18 session", inp)
                 col.add("C18", f"C18|radar_died_while_showing_data|{sess.panic_location()}", "radar terminated during a data session: nothing is shown any more", inp)
                 return
+            if sess.widget_missing("F3", lambda: sess.airplanes_rows() is not None):
+                col.add("C18", "C18|airplanes_tab_not_drawn", "the Airplanes tab is selected, the frame of the UI is on screen, but the table of aircraft is not drawn", inp)
+                return
             raise Inconclusive("Airplanes table not on screen")
         ok = rows_equal(col, rows, sim, "", inp, "after_feed")
         tc = sess.tab_title_count()
@@ -158,7 +161,10 @@ def data_session(col, binpath, vmon, rng, tag, scratch):
             sess.p.pump(0.2)
         col.count("stats_compared")
         if tot is None or most is None:
-            col.inconc("Stats rows not found on screen")
+            if sess.widget_missing("F4", lambda: any("Total Airplanes" in l for l in sess.p.screen.text())):
+                col.add("C18", "C18|stats_tab_not_drawn", "the Stats tab is selected, the frame of the UI is on screen, but the statistics are not drawn", inp)
+            else:
+                col.inconc("Stats rows not found on screen")
         else:
             if tot != sim["total_added"]:
                 col.add("C18", "C18|stats_total_airplanes", f"Stats shows Total Airplanes {tot}; aircraft were newly added {sim['total_added']} times", inp)
@@ -195,6 +201,9 @@ def data_session(col, binpath, vmon, rng, tag, scratch):
                 col.add("C17", f"C17|terminated_before_quit|{sess.panic_location()}", "radar died during view controls", dict(inp, view=seq))
                 col.add("C18", f"C18|radar_died_while_showing_data|{sess.panic_location()}", "radar terminated during a data session: nothing is shown any more", inp)
                 return
+            if sess.widget_missing("F3", lambda: sess.airplanes_rows() is not None):
+                col.add("C18", "C18|airplanes_tab_not_drawn", "the Airplanes tab is selected, the frame of the UI is on screen, but the table of aircraft is not drawn", inp)
+                return
             raise Inconclusive("Airplanes table not on screen after view controls")
         if ok:
             rows_equal(col, rows2, sim, "", dict(inp, view_controls=seq), "after_view_controls")
@@ -211,6 +220,9 @@ def data_session(col, binpath, vmon, rng, tag, scratch):
         rows3 = wait_rows(sess, sim2["len"], sentinel=SENTINELS[1])
         col.count("rows_compared", len(sim2["rows"]))
         if rows3 is None:
+            if sess.widget_missing("F3", lambda: sess.airplanes_rows() is not None):
+                col.add("C18", "C18|airplanes_tab_not_drawn", "the Airplanes tab is selected, the frame of the UI is on screen, but the table of aircraft is not drawn", inp)
+                return
             raise Inconclusive("Airplanes table not on screen after the second batch")
         if ok:
             rows_equal(col, rows3, sim2, "", dict(inp, view_controls=seq, lines2=[l.decode() for l in lines2]), "data_decoded_while_view_is_panned")
@@ -264,6 +276,9 @@ def long_count_session(col, binpath, vmon, rng, tag, scratch, n_msgs):
                 col.add("C17", f"C17|terminated_before_quit|{sess.panic_location()}", "radar died during a C18 session", inp)
                 col.add("C18", f"C18|radar_died_while_showing_data|{sess.panic_location()}", "radar terminated during a data session: nothing is shown any more", inp)
                 return
+            if sess.widget_missing("F3", lambda: sess.airplanes_rows() is not None):
+                col.add("C18", "C18|airplanes_tab_not_drawn", "the Airplanes tab is selected, the frame of the UI is on screen, but the table of aircraft is not drawn", inp)
+                return
             raise Inconclusive("Airplanes table not on screen")
         if not any(r["icao"] == "%06x" % SENTINELS[0] for r in rows):
             raise Inconclusive(f"the sentinel behind {n_msgs} lines did not show up in time")
@@ -308,6 +323,9 @@ def crowd_session(col, binpath, vmon, rng, tag, scratch):
         seen = {}
         first = sess.airplanes_rows()
         if first is None:
+            if sess.widget_missing("F3", lambda: sess.airplanes_rows() is not None):
+                col.add("C18", "C18|airplanes_tab_not_drawn", "the Airplanes tab is selected, the frame of the UI is on screen, but the table of aircraft is not drawn", inp)
+                return
             raise Inconclusive("Airplanes table not on screen")
         for step in range(sim["len"] + 3):
             rows = sess.airplanes_rows()
@@ -402,6 +420,9 @@ def stats_expiry_session(col, binpath, rng, tag, scratch):
         col.count("expiry_sessions")
         col.cls("stats|expiry")
         if tot is None:
+            if sess.widget_missing("F4", lambda: any("Total Airplanes" in l for l in sess.p.screen.text())):
+                col.add("C18", "C18|stats_tab_not_drawn", "the Stats tab is selected, the frame of the UI is on screen, but the statistics are not drawn", inp)
+                return
             raise Inconclusive("Stats rows not found")
         if tot != k1 + k2:
             col.add("C18", "C18|stats_total_airplanes|expiry", f"Total Airplanes {tot}; {k1} aircraft were added, expired, then {k2} were added ({overlap} of them again)", inp)
@@ -470,6 +491,9 @@ def map_session(col, binpath, rng, tag, scratch):
         txt = sess.p.screen.text()
         top = next((i for i, l in enumerate(txt) if "┌Map" in l), None)
         if top is None:
+            if sess.widget_missing("F1", lambda: any("┌Map" in l for l in sess.p.screen.text())):
+                col.add("C18", "C18|map_not_drawn", "the Map tab is selected, the frame of the UI is on screen, but no map is drawn", inp)
+                return
             raise Inconclusive("Map tab not on screen")
         bottom = next((i for i in range(top + 1, len(txt)) if "└" in txt[i]), len(txt) - 1)
         left = txt[top].index("┌")
